@@ -301,7 +301,7 @@ FILTERED_ATTRS = {"request", "sent_continue", "last_activity", "current_outbuf_c
 
 
 def model_params(scn):
-    return "%d,%d,%d,%d,%d" % (scn.lookahead, scn.send_bytes, scn.sndbuf, len(CONT), scn.n_workers)
+    return "%d,%d,%d,%d" % (scn.lookahead, scn.send_bytes, len(CONT), scn.n_workers)
 
 
 def model_script(scn, world):
@@ -350,9 +350,14 @@ def trace_tokens(world):
         return world.snapshot()
 
     out = []
+    gone = False
     for i, (th, kind, detail) in enumerate(ev):
         if i not in snaps:
             continue            # a note, not a scheduled operation
+        if kind == "client:close":
+            gone = True
+        if kind == "sock_send" and gone:
+            break               # send() fails with EPIPE from here on: socket errors are C13's, not modelled
         if th == "io":
             t = "i"
         elif th.startswith("waitress-"):
@@ -399,7 +404,7 @@ def trace_tokens(world):
             n = 0
             if i + 1 < len(ev) and ev[i + 1][1] == "wire" and ev[i + 1][0] == th and (i + 1) not in snaps:
                 n = len(ev[i + 1][2]) // 2
-            env = "n%d" % n
+            env = "n%d.%d" % (detail, n)
             lab = "S:%d:%d" % (detail, n)
         elif kind == "sock_recv":
             lab = "Rv"
@@ -452,6 +457,10 @@ def validate(world, runner):
         return 0, {"why": "runner answered %d fields for %d tokens: %s" % (len(fields), len(toks), ans[:200])}, {}
     allok = True
     wire_ok = True
+    io_blocking_ob = False
+    pcs = set()
+    states = set()
+    kv = {"ok": "11111", "wsc": "0"}
     for n, ((i, tok, lab, snap), f) in enumerate(zip(toks, fields)):
         if f == "skip":
             continue
@@ -461,6 +470,13 @@ def validate(world, runner):
         if mlab != lab:
             return n, {"why": "label", "event": i, "token": tok, "real": lab, "model": mlab}, {}
         kv = dict(x.split("=", 1) for x in st.split(";"))
+        pcs.update(kv["pc"].split(","))
+        states.add(hashlib.sha1(("%s|%s" % (mlab, st)).encode()).hexdigest()[:16])
+        if tok.startswith("i:"):
+            if lab == "A:ob":
+                io_blocking_ob = True
+            elif lab == "Rl:ob":
+                io_blocking_ob = False
         if snap is not None:
             m = {
                 "rq": 0 if kv["rq"] == "-" else len(kv["rq"].split(".")),
@@ -472,6 +488,10 @@ def validate(world, runner):
                 "wire": int(kv["wire"]),
             }
             diff = {k: (snap[k], m[k]) for k in m if snap[k] != m[k]}
+            if "obs" in diff and not any(m["obs"]) and (io_blocking_ob or not m["conn"]):
+                # handle_close(): OverflowableBuffer.close() leaves a bytes-stage buffer's length
+                # unchanged; the model empties every buffer (their content is discarded either way)
+                del diff["obs"]
             if diff:
                 return n, {"why": "state", "event": i, "token": tok, "label": lab, "real_vs_model": {k: list(map(str, v)) for k, v in diff.items()}}, {}
         ok = kv["ok"]
@@ -479,7 +499,8 @@ def validate(world, runner):
             wire_ok = False
         if ok != "11111":
             allok = False
-    return len(toks), None, {"allok": allok, "wire_ok": wire_ok, "last": kv["ok"], "wsc": kv["wsc"] == "1"}
+    return len(toks), None, {"allok": allok, "wire_ok": wire_ok, "last": kv["ok"], "wsc": kv["wsc"] == "1",
+                             "pcs": pcs, "states": states}
 
 
 # ----------------------------------------------------------------------------
